@@ -14,6 +14,7 @@ import (
 	"strconv"
 	"strings"
 	"sync"
+	"sync/atomic"
 	"time"
 )
 
@@ -153,7 +154,11 @@ type RunInfo struct {
 // Worker
 // ---------------------------------------------------------------------------
 
-const caseTimeoutDefault = 120 * time.Second
+const caseTimeoutDefault = 40 * time.Second
+
+// memLimit: a single case that drives the process above this heap size is an
+// unbounded allocation (typical cases allocate a few MiB).
+const memLimit = 3 << 30
 
 func workerMain(prop, tier string, seed int64, start, step, n int, journal string) int {
 	m := monitors[prop]
@@ -175,7 +180,21 @@ func workerMain(prop, tier string, seed int64, start, step, n int, journal strin
 	}
 	var mu sync.Mutex
 	samples := 0
+	var curIdx int64 = -1
+	go func() {
+		var ms runtime.MemStats
+		for {
+			time.Sleep(250 * time.Millisecond)
+			runtime.ReadMemStats(&ms)
+			if ms.HeapAlloc > memLimit {
+				mu.Lock()
+				jf.WriteString("M " + strconv.FormatInt(atomic.LoadInt64(&curIdx), 10) + "\n")
+				os.Exit(4)
+			}
+		}
+	}()
 	for i := start; i < n; i += step {
+		atomic.StoreInt64(&curIdx, int64(i))
 		jf.WriteString("B " + strconv.Itoa(i) + "\n")
 		idx := i
 		timer := time.AfterFunc(timeout, func() {
@@ -229,10 +248,11 @@ type journalState struct {
 	lastBegin int
 	lastEnd   int
 	timedOut  int
+	memOut    int
 }
 
 func readJournal(path string, from int64) (js journalState, off int64) {
-	js.lastBegin, js.lastEnd, js.timedOut = -1, -1, -1
+	js.lastBegin, js.lastEnd, js.timedOut, js.memOut = -1, -1, -1, -1
 	f, err := os.Open(path)
 	if err != nil {
 		return js, from
@@ -253,6 +273,8 @@ func readJournal(path string, from int64) (js journalState, off int64) {
 			js.lastBegin, _ = strconv.Atoi(line[2:])
 		case strings.HasPrefix(line, "T "):
 			js.timedOut, _ = strconv.Atoi(line[2:])
+		case strings.HasPrefix(line, "M "):
+			js.memOut, _ = strconv.Atoi(line[2:])
 		case strings.HasPrefix(line, "E "):
 			rest := line[2:]
 			sp := strings.IndexByte(rest, ' ')
@@ -346,6 +368,7 @@ func parentMain(prop, tier string) int {
 			start := w
 			var off int64
 			restarts := 0
+			watchdogs := 0
 			for start < n {
 				errFile := filepath.Join(dir, fmt.Sprintf("w%d.%d.err", w, restarts))
 				ef, _ := os.Create(errFile)
@@ -383,6 +406,21 @@ func parentMain(prop, tier string) int {
 				if js.timedOut == crashed {
 					agg.Cases++
 					agg.Inconclusive["watchdog"]++
+					watchdogs++
+				} else if js.memOut == crashed {
+					agg.Cases++
+					agg.Crashes++
+					props := m.CrashProps
+					if len(props) == 0 {
+						props = []string{"C06"}
+					}
+					for _, p := range props {
+						agg.Violations = append(agg.Violations, Violation{
+							Prop: p, Key: "unbounded-memory",
+							Msg:    fmt.Sprintf("case %d drove the worker's heap above %d MiB (unbounded allocation, e.g. a non-terminating loop that appends)", crashed, memLimit>>20),
+							Detail: map[string]interface{}{"case": crashed},
+						})
+					}
 				} else {
 					agg.Cases++
 					agg.Crashes++
@@ -402,6 +440,18 @@ func parentMain(prop, tier string) int {
 				aggMu.Unlock()
 				start = crashed + workers
 				restarts++
+				if watchdogs >= 3 {
+					// three cases of this worker hit the wall-clock watchdog:
+					// give up on its remaining cases instead of spending
+					// minutes on each; the run is reported as inconclusive
+					aggMu.Lock()
+					agg.Inconclusive["abandoned-after-3-watchdogs"]++
+					if broken == "" {
+						broken = fmt.Sprintf("worker %d abandoned: 3 cases exceeded the %v wall-clock watchdog (inconclusive, not a verdict)", w, caseTimeoutDefault)
+					}
+					aggMu.Unlock()
+					return
+				}
 				if restarts > 2000 {
 					aggMu.Lock()
 					broken = "too many worker restarts"
